@@ -37,3 +37,49 @@ pub fn check_vec_iters(segs: &(Vec<Vec<usize>>, usize), loc: &mut Local) {
     }
     loc.outcome(&x.len());
 }
+
+/// n segments (all empty / all singletons / alternating): the owning and the borrowing iterators must report
+/// the exact number of slices still to come before and after the first next(), and yield n slices
+pub fn check_many_segments(n: usize, pattern: usize, loc: &mut Local) {
+    let x: Vec<Vec<usize>> = (0..n).map(|i| match pattern {
+        0 => vec![],
+        1 => vec![i % 2],
+        _ => if i % 2 == 0 { vec![] } else { vec![1, 0] },
+    }).collect();
+    let r = catch(|| -> Result<(), String> {
+        let mut it = seg(&x, 2).into_iter();
+        if it.len() != n || it.size_hint() != (n, Some(n)) {
+            return Err(format!("fresh iterator over {} segments reports len {} / size_hint {:?}", n, it.len(), it.size_hint()));
+        }
+        it.next();
+        if it.len() != n - 1 || it.size_hint() != (n - 1, Some(n - 1)) {
+            return Err(format!("after one next() of {} segments: len {} / size_hint {:?}", n, it.len(), it.size_hint()));
+        }
+        if it.count() != n - 1 {
+            return Err("owning iterator yields the wrong number of slices".into());
+        }
+        let labels = vec!["a".to_string(), "b".to_string()];
+        let lic = seg(&x, 2).map_semifinite(&sf(&labels)).ok_or("map_semifinite None")?;
+        let mut lit = lic.clone().into_iter();
+        if lit.len() != n || lit.size_hint() != (n, Some(n)) {
+            return Err(format!("fresh label iterator over {} segments reports len {} / size_hint {:?}", n, lit.len(), lit.size_hint()));
+        }
+        lit.next();
+        if lit.len() != n - 1 {
+            return Err(format!("label iterator after one next() of {}: len {}", n, lit.len()));
+        }
+        let got: Vec<usize> = lic.iter().map(|s| s.len()).collect();
+        if got != x.iter().map(|l| l.len()).collect::<Vec<_>>() {
+            return Err(format!("iter() over {} segments yields the wrong slices", n));
+        }
+        Ok(())
+    });
+    loc.trans(3);
+    match r {
+        Ok(Ok(())) => {}
+        Ok(Err(m)) => loc.violation("wrong:many-segments", json!({"segments": n, "pattern": pattern, "why": m})),
+        Err(p) => loc.violation("panic:many-segments", json!({"segments": n, "pattern": pattern, "panic": p})),
+    }
+    loc.nontrivial();
+    loc.outcome(&(n, pattern));
+}
